@@ -71,6 +71,16 @@ def c02(tier: str) -> int:
             c['foreign'], npres = add_preserve(res, rng)
             c['preserve'] = npres > 0
         cases.append(c)
+    # a few 1.0 documents that certainly have an entry-level frame whose list of senses is not
+    # in ascending order (rare in the general stream: none at all for some seeds)
+    r2 = random.Random(seed() * 31 + 2)
+    want = 12 if thorough else 5
+    while want:
+        res = docs.random_resource(r2, '1.0', adversarial=r2.random() < 0.5, size=4)
+        if any(len(f.get('senses', [])) > 1 and f['senses'] != sorted(f['senses'])
+               for L in res['lexicons'] for e in L['entries'] for f in e.get('frames', [])):
+            cases.append({'id': len(cases) + 1, 'res': res, 'versions': VERSIONS})
+            want -= 1
     recs = run_cases('roundtrip', cases)
     jd = tlc_judge('Judge_C02', recs, cfg='Judge.cfg', shards=NCPU)
     v.add_judgement('Judge_C02', jd, {x['id']: x for x in recs}, nontrivial=len(cases))
